@@ -177,6 +177,12 @@ Theorem C10_bspline_conversion_partial : forall cdesc xi x,
 Proof. exact bspline_piece. Qed.
 Print Assumptions C10_bspline_conversion_partial.
 
+Theorem C10_bspline_range : forall cdesc xi xi1 r,
+  polyfun xi xi1 (rev cdesc) xi 1 r =
+  if Rle_dec (Rmax xi 0) r then if Rlt_dec r xi1 then ppoly_eval cdesc xi r else 0 else 0.
+Proof. exact bspline_range. Qed.
+Print Assumptions C10_bspline_range.
+
 (* the executed Q instance of the model is the R instance of the theorems on rational inputs:
    Q2R commutes with prepare, .func and the .abel evaluation form (no parametricity assumption left) *)
 Theorem C10_model_Q2R_func : forall r rmin rmax c r0 s red, ~ (s == 0)%Q ->
